@@ -24,6 +24,7 @@ RULE = ("weak-reference census: every streaming tool (zip, zip strict, map, filt
         "one head per source for merge, lead + 1 per live child for tee); tee with lockstep, leading/lagging and "
         "early-closed children. cycle, sorted and the collection builders are excluded as documented. "
         "one evaluation = one stream run; non-trivial = every run (N >= 60); distinct = (tool, N, parameters)")
+RULE += (' Also: sums of list pages onto a list start.')
 RULE += (' Also: strict batches (window n, also when the stream ends off a batch boundary).')
 RULE += (' Also: chain.from_iterable over a long lazy stream of pages (closeable class iterators keeping their records; plain iterators); groupby without key / identity key read group by group; tee with a real lock where a started child is closed while its sibling holds the lock mid-fetch and that close is cancelled at each suspension point; all streams report len() == 0 (current backlog).')
 RULE += (' Also: sized, lazily produced synchronous datasets as sources of every streaming tool.')
@@ -48,6 +49,14 @@ class WStr(str):
 
 
 class WBytes(bytearray):
+    pass
+
+
+class WList(list):
+    """A page of records (a list that can be weakly referenced)."""
+
+
+class WTuple(tuple):
     pass
 
 
@@ -128,7 +137,7 @@ class BareStream:
             raise StopAsyncIteration
         item = self.make(self.i)
         self.i += 1
-        if isinstance(item, tuple):
+        if isinstance(item, tuple) and not isinstance(item, WTuple):
             for x in item:
                 if isinstance(x, W):
                     self.census.track(x)
@@ -159,8 +168,8 @@ class SyncDataset:
         for i in range(self.n):
             self.census.sample(f"pull {i} of {self.name}")
             item = self.make(i)
-            for x in (item if isinstance(item, tuple) else (item,)):
-                if isinstance(x, (W, WStr, WBytes)):
+            for x in (item if isinstance(item, tuple) and not isinstance(item, WTuple) else (item,)):
+                if isinstance(x, (W, WStr, WBytes, WList, WTuple)):
                     self.census.track(x)
             yield item
             del item
@@ -279,6 +288,8 @@ def _tools():
     # total and the piece at hand - not the whole stream kept until its end
     T["sum_text"] = (1, 0, lambda S, n: A.sum(S[0], ""), "agg", {"text": "str"})
     T["sum_bytes"] = (1, 0, lambda S, n: A.sum(S[0], b""), "agg", {"text": "bytes"})
+    # pages of records concatenated onto a list / tuple start: the pages themselves are let go one by one
+    T["sum_lists"] = (1, 0, lambda S, n: A.sum(S[0], []), "agg", {"text": "list"})
     T["min"] = (1, 1, lambda S, n: A.min(S[0]), "agg", {})
     T["max"] = (1, 1, lambda S, n: A.max(S[0], key=lambda x: x.key), "agg", {})
     # a long plateau: every item ties with the running extreme - one of them is kept, not all
@@ -341,7 +352,8 @@ def run_tool(case, stats):
     if opt.get("falsy"):
         make = lambda i: W(i, truth=False)  # noqa: E731
     if opt.get("text"):
-        make = (lambda i: WStr(f"{i:04d}")) if opt["text"] == "str" else (lambda i: WBytes(b"%04d" % i))  # noqa: E731
+        make = {"str": lambda i: WStr(f"{i:04d}"), "bytes": lambda i: WBytes(b"%04d" % i),
+                "list": lambda i: WList([i]), "tuple": lambda i: WTuple((i,))}[opt["text"]]
     if opt.get("runs"):
         make = lambda i: W(i // opt["runs"])  # noqa: E731 - runs of equal items
     streams = [Stream(census, n if not (opt.get("uneven") and s) else n // 2, make, f"s{s}") for s in range(nsrc)]
